@@ -676,7 +676,7 @@ FAMILIES = [("exact", fam_exact, 6), ("cluster", fam_cluster, 6), ("ps-any", fam
 
 def search(run, rng, quick):
     cx = Ctx(run, rng, quick)
-    rounds = 5 if quick else 45
+    rounds = 10 if quick else 100
     budget = 50.0 if quick else 540.0
     stop = False
     for r in range(rounds):
